@@ -180,8 +180,9 @@ def encode_harness(cname: str, cls: type, alts: dict[str, str], dict_size: int =
             obj = I.call(cls, *args)
             pdu = I.getattr_v(obj, "pdu")
         except PyExc as e:
-            if not issubclass(e.exc.cls, REFUSAL + (TypeError,)):
-                I.fail("E-refusal-is-a-value-error", f"raised {e.exc.cls.__name__}")
+            I.prove("E-refusal-is-a-value-error",
+                    z3.BoolVal(issubclass(e.exc.cls, REFUSAL + (TypeError,))),
+                    f"raised {e.exc.cls.__name__}")
             return
         assert isinstance(obj, VObj) and isinstance(pdu, VBytes)
         if spec.get("raw"):
